@@ -730,6 +730,9 @@ class KeychainSqlite3(Keychain):
         if name not in self:
             raise KeyError(f'Identity {Name.to_str(id_name)} does not exist')
         identity = self[name]
+        if kwargs.get('key_id') and self.tpm.construct_key_name(name, b'', **kwargs) in identity:
+            # Generating it would overwrite the private key of the existing key
+            raise ValueError(f'Key with the given id already exists in {Name.to_str(name)}')
         key_name, pub_key = self.tpm.generate_key(name, key_type, **kwargs)
         signer = self.tpm.get_signer(key_name)
         cert_name, cert_data = self_sign(key_name, pub_key, signer)
